@@ -270,6 +270,12 @@ func negotiateFeatures(ctx context.Context, s *Session, first, ws bool, features
 			s.state |= mask
 		}
 		s.negotiated[data.feature.Name.Space] = struct{}{}
+		// A failed feature ends negotiation, whether it was required or not:
+		// otherwise the error of a voluntary feature is overwritten by the result
+		// of the next one and the session is reported established.
+		if err != nil {
+			return mask, rw, err
+		}
 
 		// If we negotiated a required feature or a stream restart is required
 		// we're done with this feature set.
